@@ -16,7 +16,7 @@ import (
 )
 
 // defect kinds injected at a position of an otherwise valid adjacent range
-var defects = []string{"none", "typeerr", "gap", "dup", "reorder", "nil", "wrongchain", "past", "future", "softerr"}
+var defects = []string{"none", "typeerr", "gap", "gaplinked", "tvpanic", "dup", "reorder", "nil", "wrongchain", "past", "future", "softerr"}
 
 type elem struct {
 	h  *vhdr.Header
@@ -32,19 +32,34 @@ func build(rng *emit.Rand, now time.Time, n int, pos int, defect string, firstGa
 		start = base + 2 + rng.U64()%50
 	}
 	var out []elem
+	prev := tr.Hash()
 	for i := 0; i < n; i++ {
-		out = append(out, elem{h: &vhdr.Header{Chain: "a", H: start + uint64(i), T: t0 + int64(i) + 1, Nonce: uint64(i + 1)}})
+		h := &vhdr.Header{Chain: "a", H: start + uint64(i), T: t0 + int64(i) + 1, Nonce: uint64(i + 1), Prev: prev}
+		out = append(out, elem{h: h})
+		prev = h.Hash()
 	}
 	if pos < n {
 		e := &out[pos]
 		switch defect {
+		case "tvpanic":
+			e.tv = 6
 		case "typeerr":
 			e.tv = 1 + rng.Intn(2) // plain or hard verr
 		case "softerr":
 			e.tv = 3 + 2*rng.Intn(2)
-		case "gap":
+		case "gap", "gaplinked":
 			for j := pos; j < n; j++ {
 				out[j].h.H += 1 + rng.U64()%3
+			}
+			if defect == "gaplinked" {
+				// the header after the hole names the header before the hole as its parent
+				p := tr.Hash()
+				for j := 0; j < n; j++ {
+					if j >= pos {
+						out[j].h.Prev = p
+					}
+					p = out[j].h.Hash()
+				}
 			}
 		case "dup":
 			if pos > 0 {
@@ -82,7 +97,7 @@ func TestC02(t *testing.T) {
 		w.Exhaustive = true
 	}
 	reg := vhdr.NewRegistry()
-	tvs := hv.TVs()
+	tvs := append(hv.TVs(), hv.TV{Term: "(TVPlain 99)", F: func() error { panic("scripted panic in the header type's Verify") }})
 	synctest.Test(t, func(t *testing.T) {
 		drift := header.VerifClockDrift()
 		one := func(tr *vhdr.Header, els []elem, class string, nontriv bool) {
@@ -103,10 +118,12 @@ func TestC02(t *testing.T) {
 			vhdr.SetPolicy(func(_, u *vhdr.Header) error { return tvs[byHash[string(u.Hash())]].F() })
 			var res []*vhdr.Header
 			var err error
+			panicked := false
 			func() {
 				defer func() {
 					if r := recover(); r != nil {
 						err = fmt.Errorf("PANIC %v", r)
+						panicked = true
 					}
 				}()
 				res, err = header.VerifyRange(tr, in)
@@ -128,6 +145,12 @@ func TestC02(t *testing.T) {
 				ins[i] = emit.Pair(reg.Term(e.h), tvs[tv].Term)
 			}
 			obs := hv.Observe(err)
+			if panicked {
+				// a panic of the type-level Verify propagates to the caller: nothing was accepted, and the
+				// model has no panic outcome - the case is only emitted when the panic was swallowed
+				w.Count("type_level_panic", "propagated")
+				return
+			}
 			term := fmt.Sprintf("Case02 %s %s %s %s %s %s", emit.Z(now.UnixNano()), emit.Z(int64(drift)), reg.Term(tr),
 				emit.List(ins), emit.List(ids), obs)
 			w.Add(term, map[string]any{"class": class, "returned": len(res), "err": obs, "len": len(els)}, class, nontriv)
